@@ -56,7 +56,11 @@ def do_op(op, mutate=False):
     try:
         if kind == "netlist":
             from frame.netlist.netlist import Netlist
-            nl = Netlist(copy.deepcopy(op["doc"]))
+            src = copy.deepcopy(op["doc"])
+            if op.get("file") is not None and isinstance(src, str):
+                from gen import files
+                src = files.write(op["file"], src)  # the design is loaded from a file (the same few file names are used again and again)
+            nl = Netlist(src)
             out = ["ok", [[m.name, m.is_soft, m.is_hard, m.is_fixed, m.is_terminal, m.area(),
                            None if m.center is None else [m.center.x, m.center.y],
                            [[r.center.x, r.center.y, r.shape.w, r.shape.h, r.region, r.location.name] for r in m.rectangles]]
@@ -69,7 +73,11 @@ def do_op(op, mutate=False):
             from frame.die.die import Die
             from frame.netlist.netlist import Netlist
             if op.get("dietext") is not None:
-                die = Die(op["dietext"])  # a hand-written YAML document (literal forms, directives)
+                src = op["dietext"]  # a hand-written YAML document (literal forms, directives)
+                if op.get("file") is not None:
+                    from gen import files
+                    src = files.write(op["file"], src)
+                die = Die(src)
             else:
                 c = op["die"]
                 nl = Netlist(D.fixed_netlist_tree(c)) if c["fixed"] else None
@@ -100,7 +108,11 @@ def do_op(op, mutate=False):
             return sig12(out)
         if kind == "stog":
             from frame.netlist.netlist import Netlist
-            nl = Netlist(copy.deepcopy(op["doc"]))
+            src = copy.deepcopy(op["doc"])
+            if op.get("file") is not None and isinstance(src, str):
+                from gen import files
+                src = files.write(op["file"], src)  # the design is loaded from a file (the same few file names are used again and again)
+            nl = Netlist(src)
             m = nl.modules[0]
             return sig12(["ok", m.has_stog, [[r.center.x, r.center.y, r.location.name] for r in m.rectangles]])
         if kind == "sat":
@@ -290,6 +302,8 @@ def run_case(c):
         cls.append("large-decimal-die-after-small-designs")
     if any((h.get("note") or "").startswith("yaml-text-with-directive") for h in hist) and (probe.get("note") or "").startswith("yaml-text"):
         cls.append("yaml-text-probe-after-a-document-with-a-directive")
+    if probe.get("file") is not None and any(h.get("file") == probe["file"] for h in hist):
+        cls.append("probe-loaded-from-a-file-name-used-before")
     if any(h.get("note") == "same-inequalities-other-construction" for h in hist):
         cls.append("history-with-other-robdd-construction")
     return dict(nt=(len(hist) >= 2 and probe["kind"] in fam) or any(h.get("scale", 1) != probe.get("scale", 1) for h in hist) or bool(probe.get("big")), cls=cls)
@@ -345,6 +359,7 @@ def op_s(draw, base, allow_scale=True, allow_bad=True, kinds=None, force_text=Fa
     if kind in ("netlist", "die") and (force_text or draw(_i(0, 5)) == 0):
         txt = draw(yaml_text_s(kind))
         op["note"] = "yaml-text" + ("-with-directive" if txt.startswith("%") else "")
+        op["file"] = draw(st.sampled_from([None, None, 0, 0, 1]))
         if kind == "netlist":
             op["doc"] = txt
         else:
@@ -470,7 +485,7 @@ def scales_s(draw):
 def subchecks():
     return [Sub("scales", run_case, strategy=scales_s(), n_quick=6000, n_thorough=300000, reset=False, shrink_quick=True,
                 required=("history-at-a-smaller-scale", "history-100x-larger", "large-decimal-die-after-small-designs",
-                          "yaml-text-probe-after-a-document-with-a-directive")),
+                          "yaml-text-probe-after-a-document-with-a-directive", "probe-loaded-from-a-file-name-used-before")),
             Sub("histories", run_case, strategy=case_s(), n_quick=1600, n_thorough=40000, reset=False, shrink_quick=True,
                 required=tuple("probe-" + f for f in FAMILIES) + ("history-with-degenerate-netlist", "history-mutates-results",
                                                                    "history-with-rejected-design", "history-100x-larger", "probe-rejected",
